@@ -580,7 +580,13 @@ func (w *World) backSlice(v ssa.Value, opt flowOpt) map[ssa.Value]bool {
 			}
 			// short-circuit && / ||: a boolean phi also depends on the conditions its
 			// predecessors branch on
-			if b, ok := x.Type().Underlying().(*types.Basic); ok && b.Kind() == types.Bool {
+			allConst := true
+			for _, e := range x.Edges {
+				if _, isC := e.(*ssa.Const); !isC {
+					allConst = false
+				}
+			}
+			if b, ok := x.Type().Underlying().(*types.Basic); (ok && b.Kind() == types.Bool) || allConst {
 				for _, p := range x.Block().Preds {
 					if len(p.Instrs) > 0 {
 						if br, ok := p.Instrs[len(p.Instrs)-1].(*ssa.If); ok {
